@@ -101,6 +101,7 @@ func C07(c *vf.Check) {
 	runOne("expr", tier(c, "2", "3"), "2", 4, srcOpts{})
 	runOne("box", tier(c, "3", "4"), "2", 5, srcOpts{Box: true})
 	runOne("box", tier(c, "3", "4"), "2", 5, srcOpts{Box: true, BoxVal: true})
+	runOne("box", tier(c, "3", "4"), "2", 5, srcOpts{Box: true, BoxMap: true})
 	runOne("ctl", tier(c, "2", "3"), tier(c, "2", "3"), 5, srcOpts{})
 	c.Cov["programs"] = int64(total)
 	c.Cov["disagreements_checked"] = int64(diff)
